@@ -86,8 +86,9 @@ def Toks.prepend (pre : List (Tok μ)) (t : Toks μ) : Toks μ := { t with toks 
 /-! ### stability of framing under later bytes
 
 `st buf` is a (protocol specific, decidable) test that the way the HEAD of `buf` is framed cannot be changed by bytes arriving
-later.  For SoupBinTCP it is constantly true (length prefix).  For FIX it fails exactly when the computed frame length is
-negative (`buf[:n]` with `n < 0` counts from the END of whatever has arrived).  `stable` runs the test at every cut point. -/
+later.  For SoupBinTCP it is constantly true (length prefix).  For FIX it is constantly true since the repair 658ee1f; before,
+it failed exactly when the computed frame length was negative (`buf[:n]` with `n < 0` counts from the END of whatever has
+arrived — `Witness/C04Bytes.lean`).  `stable` runs the test at every cut point. -/
 
 def stableF (P : Framing.Proto μ) (st : Bytes → Bool) : Nat → Bytes → Bool
   | 0, _ => true
@@ -99,26 +100,9 @@ def stableF (P : Framing.Proto μ) (st : Bytes → Bool) : Nat → Bytes → Boo
 
 def stable (P : Framing.Proto μ) (st : Bytes → Bool) (buf : Bytes) : Bool := stableF P st buf.length buf
 
-/-- the frame length `FixMessageReader.deserialize` computes (`calc_msg_len(end+1, body_length)`), when it gets that far -/
-def fixFrameLen (buf : Bytes) : Option Int :=
-  match Framing.find buf Framing.tag35 0 with
-  | none => none
-  | some _ =>
-    match Framing.find buf [Framing.EQ] 2 with
-    | none => none
-    | some start =>
-      match Framing.find buf [Framing.SOH] start with
-      | none => none
-      | some end_ =>
-        match parseIntBytes (Framing.pySlice buf ((start : Int) + 1) end_) with
-        | .error _ => none
-        | .ok n => some (((end_ : Int) + 1) + n + 7)
-
-/-- FIX: the head of the buffer is framed independently of later bytes unless the computed frame length is negative -/
-def fixSt (buf : Bytes) : Bool :=
-  match fixFrameLen buf with
-  | some l => decide (0 ≤ l)
-  | none => true
+/-- FIX, after the repair 658ee1f (`if body_length < 0: raise ValueError`): nothing a later byte can change either — the
+    pre-repair test (computed frame length ≥ 0) lives in `Witness/C04Bytes.lean` -/
+def fixSt (_ : Bytes) : Bool := true
 
 def soupSt (_ : Bytes) : Bool := true
 
